@@ -28,7 +28,11 @@ func (node *tagWidthratioNode) Execute(ctx *ExecutionContext, writer TemplateWri
 		return err
 	}
 
-	value := int(math.Round(current.Float() / max.Float() * width.Float()))
+	value := 0
+	if max.Float() != 0 {
+		// (a maximum of zero gives 0, as in Django, not the integer conversion of Inf or NaN)
+		value = int(math.Round(current.Float() / max.Float() * width.Float()))
+	}
 
 	if node.ctxName == "" {
 		writer.WriteString(fmt.Sprintf("%d", value))
